@@ -287,7 +287,8 @@ End Step.
 Inductive item := IReq (hlen : N) (body : option N) | IEndless.
 Inductive bact := BPend | BChunk (e : N) | BEnd (t : N).
 Inductive hact :=
-| HPend                                         (* return Pending once (woken by the environment) *)
+| HPend                                         (* return Pending once *)
+| HWait                                         (* Pending until the next external event (round with r_hw) *)
 | HRead                                         (* take one chunk from the request payload; Pending while it is empty *)
 | HReadAll                                      (* read the payload to its end *)
 | HRespond (h : N) (body : option (list bact)). (* Ready(Ok(response)); h = encoded head length *)
@@ -307,6 +308,8 @@ Record sim := mk_sim
   ; wscript : list wans        (* pending poll_write answers; exhausted => Pending *)
   ; flq : list fans            (* pending poll_flush answers; exhausted => Ready *)
   ; taken : N; started : N; delivered : N; pulled : N; accepted : N
+  ; hwc : N                    (* external handler events so far *)
+  ; ticket : option N          (* value of [hwc] when the running handler started to wait *)
   ; o_rreg : bool; o_wreg : bool; o_wake : bool     (* of the current poll *)
   ; o_hreg : bool              (* a handler / response body returned Pending on an external event *)
   ; bad : bool                 (* an event was attempted with its guard closed / fuel ran out *)
@@ -314,25 +317,27 @@ Record sim := mk_sim
 
 Definition upd_m (f : st -> st) (x : sim) : sim :=
   mk_sim (f (m x)) (todo x) (hs x) (cur x) (body x) (shut x) (err x) (sock x) (eof x) (wscript x) (flq x)
-         (taken x) (started x) (delivered x) (pulled x) (accepted x) (o_rreg x) (o_wreg x) (o_wake x) (o_hreg x) (bad x) (trace x).
+         (taken x) (started x) (delivered x) (pulled x) (accepted x) (hwc x) (ticket x) (o_rreg x) (o_wreg x) (o_wake x) (o_hreg x) (bad x) (trace x).
 Definition set_todo v x := mk_sim (m x) v (hs x) (cur x) (body x) (shut x) (err x) (sock x) (eof x) (wscript x) (flq x)
-         (taken x) (started x) (delivered x) (pulled x) (accepted x) (o_rreg x) (o_wreg x) (o_wake x) (o_hreg x) (bad x) (trace x).
+         (taken x) (started x) (delivered x) (pulled x) (accepted x) (hwc x) (ticket x) (o_rreg x) (o_wreg x) (o_wake x) (o_hreg x) (bad x) (trace x).
 Definition set_hs_cur h cu x := mk_sim (m x) (todo x) h cu (body x) (shut x) (err x) (sock x) (eof x) (wscript x) (flq x)
-         (taken x) (started x) (delivered x) (pulled x) (accepted x) (o_rreg x) (o_wreg x) (o_wake x) (o_hreg x) (bad x) (trace x).
+         (taken x) (started x) (delivered x) (pulled x) (accepted x) (hwc x) (ticket x) (o_rreg x) (o_wreg x) (o_wake x) (o_hreg x) (bad x) (trace x).
 Definition set_body v x := mk_sim (m x) (todo x) (hs x) (cur x) v (shut x) (err x) (sock x) (eof x) (wscript x) (flq x)
-         (taken x) (started x) (delivered x) (pulled x) (accepted x) (o_rreg x) (o_wreg x) (o_wake x) (o_hreg x) (bad x) (trace x).
+         (taken x) (started x) (delivered x) (pulled x) (accepted x) (hwc x) (ticket x) (o_rreg x) (o_wreg x) (o_wake x) (o_hreg x) (bad x) (trace x).
 Definition set_shut_err sh er x := mk_sim (m x) (todo x) (hs x) (cur x) (body x) sh er (sock x) (eof x) (wscript x) (flq x)
-         (taken x) (started x) (delivered x) (pulled x) (accepted x) (o_rreg x) (o_wreg x) (o_wake x) (o_hreg x) (bad x) (trace x).
+         (taken x) (started x) (delivered x) (pulled x) (accepted x) (hwc x) (ticket x) (o_rreg x) (o_wreg x) (o_wake x) (o_hreg x) (bad x) (trace x).
 Definition set_sock so eo ws fq x := mk_sim (m x) (todo x) (hs x) (cur x) (body x) (shut x) (err x) so eo ws fq
-         (taken x) (started x) (delivered x) (pulled x) (accepted x) (o_rreg x) (o_wreg x) (o_wake x) (o_hreg x) (bad x) (trace x).
+         (taken x) (started x) (delivered x) (pulled x) (accepted x) (hwc x) (ticket x) (o_rreg x) (o_wreg x) (o_wake x) (o_hreg x) (bad x) (trace x).
 Definition set_counts t s d p a x := mk_sim (m x) (todo x) (hs x) (cur x) (body x) (shut x) (err x) (sock x) (eof x) (wscript x) (flq x)
-         t s d p a (o_rreg x) (o_wreg x) (o_wake x) (o_hreg x) (bad x) (trace x).
+         t s d p a (hwc x) (ticket x) (o_rreg x) (o_wreg x) (o_wake x) (o_hreg x) (bad x) (trace x).
 Definition set_out r w k x := mk_sim (m x) (todo x) (hs x) (cur x) (body x) (shut x) (err x) (sock x) (eof x) (wscript x) (flq x)
-         (taken x) (started x) (delivered x) (pulled x) (accepted x) r w k (o_hreg x) (bad x) (trace x).
+         (taken x) (started x) (delivered x) (pulled x) (accepted x) (hwc x) (ticket x) r w k (o_hreg x) (bad x) (trace x).
 Definition set_bad x := mk_sim (m x) (todo x) (hs x) (cur x) (body x) (shut x) (err x) (sock x) (eof x) (wscript x) (flq x)
-         (taken x) (started x) (delivered x) (pulled x) (accepted x) (o_rreg x) (o_wreg x) (o_wake x) (o_hreg x) true (trace x).
+         (taken x) (started x) (delivered x) (pulled x) (accepted x) (hwc x) (ticket x) (o_rreg x) (o_wreg x) (o_wake x) (o_hreg x) true (trace x).
 Definition set_hreg v x := mk_sim (m x) (todo x) (hs x) (cur x) (body x) (shut x) (err x) (sock x) (eof x) (wscript x) (flq x)
-         (taken x) (started x) (delivered x) (pulled x) (accepted x) (o_rreg x) (o_wreg x) (o_wake x) v (bad x) (trace x).
+         (taken x) (started x) (delivered x) (pulled x) (accepted x) (hwc x) (ticket x) (o_rreg x) (o_wreg x) (o_wake x) v (bad x) (trace x).
+Definition set_hw h t x := mk_sim (m x) (todo x) (hs x) (cur x) (body x) (shut x) (err x) (sock x) (eof x) (wscript x) (flq x)
+         (taken x) (started x) (delivered x) (pulled x) (accepted x) h t (o_rreg x) (o_wreg x) (o_wake x) (o_hreg x) (bad x) (trace x).
 Definition wake (b : bool) (x : sim) : sim := set_out (o_rreg x) (o_wreg x) (o_wake x || b) x.
 
 Section Poll.
@@ -347,7 +352,7 @@ Section Poll.
     match step c (m x) e with
     | Some s' =>
         mk_sim s' (todo x) (hs x) (cur x) (body x) (shut x) (err x) (sock x) (eof x) (wscript x) (flq x)
-               (taken x) (started x) (delivered x) (pulled x) (accepted x) (o_rreg x) (o_wreg x) (o_wake x)
+               (taken x) (started x) (delivered x) (pulled x) (accepted x) (hwc x) (ticket x) (o_rreg x) (o_wreg x) (o_wake x)
                (o_hreg x) (bad x) (e :: trace x)
     | None => set_bad x
     end.
@@ -383,6 +388,12 @@ Section Poll.
         match cur x with
         | [] => (x, None)
         | HPend :: r => (set_hreg true (set_hs_cur (hs x) r x), None)
+        | HWait :: r =>
+            match ticket x with
+            | None => (set_hreg true (set_hw (hwc x) (Some (hwc x)) x), None)
+            | Some t => if t <? hwc x then run_handler f (set_hw (hwc x) None (set_hs_cur (hs x) r x))
+                        else (set_hreg true x, None)
+            end
         | HRespond h b :: r => (set_hs_cur (hs x) [] x, Some (h, b))
         | (HRead as a) :: r | (HReadAll as a) :: r =>
             let again := match a with HReadAll => true | _ => false end in
@@ -592,9 +603,9 @@ Section Poll.
 
   Definition poll (x : sim) (r : round) : sim * pres :=
     let x0 := set_hreg false (set_out false false false
-                (set_sock (sock x + r_add r) (eof x || r_eof r) (wscript x ++ r_wr r) (flq x ++ r_fl r) x)) in
+                (set_hw (if r_hw r then hwc x + 1 else hwc x) (ticket x) (set_sock (sock x + r_add r) (eof x || r_eof r) (wscript x ++ r_wr r) (flq x ++ r_fl r) x))) in
     if shut x0 then poll_shutdown_branch x0 else poll_normal x0.
 End Poll.
 
 Definition sim_init (items : list item) (handlers : list (list hact)) : sim :=
-  mk_sim st_init items handlers [] [] false false 0 false [] [] 0 0 0 0 0 false false false false false [].
+  mk_sim st_init items handlers [] [] false false 0 false [] [] 0 0 0 0 0 0 None false false false false false [].
